@@ -189,6 +189,9 @@ ListMatches == Ord => Den(rel, Env) = ref /\ Den(rel, Rev) = ref
 TargetMatches == Det => SameBag(DenT(rel, Env), ref)      \* the select read through its target chain
 Conformed == Conform(rel) = rel /\ MarkerCoherent(rel)
 WF == WellFormed(rel)
+StrictlyCoherent == StrictCoherent(rel, TRUE)
+\* companion (expected to FAIL): open finding F15 still occurs
+KF15Gone == StrictCoherent(rel, FALSE)
 
 NodeTruthful(n, env) ==
     LET d == Den(n, env) IN
